@@ -413,4 +413,108 @@ def docChunks (c : SizeConfig) (paras : List Str) : List Str :=
   else if !isAboveMax c text then [trimSpace text]
   else (splitToSize c text []).map trimSpace
 
+/-- `ChunkDocument` on several pages of paragraphs: `chunkPage` flushes its text block at the
+end of every page, so a block never spans pages -/
+def docChunksPages (c : SizeConfig) (pages : List (List Str)) : List Str :=
+  pages.flatMap (docChunks c)
+
+/-! ## The non-whitespace content of a text (specification side) -/
+
+theorem runeLen_pos (s : Str) : 0 < runeLen s := by
+  unfold runeLen; split <;> omega
+
+/-- The non-whitespace characters of `s`, in order: every White_Space character is removed,
+every other character is kept; a byte that is not part of a well-formed character counts as
+a character of its own.  This is the property's "non-whitespace characters" (the harness
+computes the same thing from Go's `unicode.IsSpace`, op `c13.nonspace`). -/
+def stripWs (s : Str) : Str :=
+  if h : s = [] then []
+  else if h2 : spaceLen s ≠ 0 then stripWs (s.drop (spaceLen s))
+  else s.take (runeLen s) ++ stripWs (s.drop (runeLen s))
+termination_by s.length
+decreasing_by
+  · have : 0 < s.length := List.length_pos_iff.mpr h
+    simp only [List.length_drop]; omega
+  · have : 0 < s.length := List.length_pos_iff.mpr h
+    have := runeLen_pos s
+    simp only [List.length_drop]; omega
+
+/-! ## Public entry points around the mechanism (size_config.go) -/
+
+/-- `rag.SizeMetrics` -/
+structure SizeMetrics where
+  characters : Nat
+  tokens : Nat
+  words : Nat
+  sentences : Nat
+  paragraphs : Nat
+  deriving Repr, DecidableEq
+
+/-- `SizeCalculator.Calculate` -/
+def calculate (c : SizeConfig) (s : Str) : SizeMetrics :=
+  { characters := s.length, tokens := estimateTokens c s, words := countWords s,
+    sentences := countSentences s, paragraphs := countParagraphs s }
+
+/-- `SizeMetrics.GetByUnit` -/
+def SizeMetrics.getByUnit (m : SizeMetrics) : SizeUnit → Nat
+  | .characters => m.characters
+  | .tokens => m.tokens
+  | .words => m.words
+  | .sentences => m.sentences
+  | .paragraphs => m.paragraphs
+
+/-- `SizeCalculator.ExceedsLimit` -/
+def exceedsLimit (c : SizeConfig) (s : Str) (limit : Nat) (unit : SizeUnit) : Bool :=
+  getSize c s unit > limit
+
+/-- `SizeCalculator.FindSplitPoint`: `FindSplitPointAt` at the configured target (the target
+limit is not part of the model's `SizeConfig`, which keeps what splitting reads; it is passed
+explicitly) -/
+def findSplitPoint (c : SizeConfig) (text : Str) (bs : List Boundary) (targetValue : Nat)
+    (targetUnit : SizeUnit) : Nat :=
+  findSplitPointAt c text bs targetValue targetUnit
+
+/-! ### preset configurations (the `Max`, `TokensPerChar` and `SplitAtSemanticBoundaries`
+fields of the constructors of size_config.go; limits are naturals, as everywhere in the model) -/
+
+/-- `DefaultSizeConfig` / `MediumChunkConfig` -/
+def defaultSizeConfig : SizeConfig :=
+  { maxValue := 2000, maxUnit := .characters, tpcNum := 1, tpcDen := 4, sem := true }
+
+/-- `TokenBasedSizeConfig(targetTokens, maxTokens)` (only `maxTokens` reaches the fields modelled) -/
+def tokenBasedSizeConfig (maxTokens : Nat) : SizeConfig :=
+  { maxValue := maxTokens, maxUnit := .tokens, tpcNum := 1, tpcDen := 4, sem := true }
+
+/-- `SemanticSizeConfig(targetParagraphs, maxParagraphs)` -/
+def semanticSizeConfig (maxParagraphs : Nat) : SizeConfig :=
+  { maxValue := maxParagraphs, maxUnit := .paragraphs, tpcNum := 1, tpcDen := 4, sem := true }
+
+/-- `SmallChunkConfig` -/
+def smallChunkConfig : SizeConfig :=
+  { maxValue := 800, maxUnit := .characters, tpcNum := 1, tpcDen := 4, sem := true }
+
+/-- `LargeChunkConfig` -/
+def largeChunkConfig : SizeConfig :=
+  { maxValue := 4000, maxUnit := .characters, tpcNum := 1, tpcDen := 4, sem := true }
+
+/-- `OpenAIEmbeddingConfig` = `TokenBasedSizeConfig(512, 8000)` -/
+def openAIEmbeddingConfig : SizeConfig := tokenBasedSizeConfig 8000
+
+/-- `CohereEmbeddingConfig` = `TokenBasedSizeConfig(256, 512)` -/
+def cohereEmbeddingConfig : SizeConfig := tokenBasedSizeConfig 512
+
+/-- `ClaudeContextConfig` = `TokenBasedSizeConfig(2000, 8000)` -/
+def claudeContextConfig : SizeConfig := tokenBasedSizeConfig 8000
+
+/-- the presets without parameters, by the name the harness uses -/
+def presetByName : String → Option SizeConfig
+  | "default" => some defaultSizeConfig
+  | "medium" => some defaultSizeConfig
+  | "small" => some smallChunkConfig
+  | "large" => some largeChunkConfig
+  | "openai" => some openAIEmbeddingConfig
+  | "cohere" => some cohereEmbeddingConfig
+  | "claude" => some claudeContextConfig
+  | _ => none
+
 end Tabula.Split
